@@ -156,11 +156,27 @@ fn run_op(chunks: &[Vec<u64>], op: &Op) -> Result<(), Fail> {
     let model: Vec<u64> = chunks.iter().flatten().copied().collect();
     let n = model.len();
     let r = vcore::catch(|| -> Result<(), Fail> {
-        let seq = build(chunks);
-        let got: Vec<u64> = seq.iter().collect();
-        if got != model {
-            return Err(("build-wrong-ids".into(), format!("built from {} iterates as {}", short(&model), short(&got))));
+        thread_local! {
+            static LAST: std::cell::RefCell<Option<(u64, RowIdSequence)>> = const { std::cell::RefCell::new(None) };
         }
+        // long subjects: build (and compare with the model) once per subject and thread, then clone
+        let fp = if n > 1000 { Some(vcore::hash64(format!("{:?}{:?}", chunks.iter().map(|c| (c.len(), c.first().copied(), c.last().copied(), c.get(11).copied(), c.get(c.len() / 2).copied())).collect::<Vec<_>>(), n).as_bytes())) } else { None };
+        let cached = fp.and_then(|f| LAST.with(|l| l.borrow().as_ref().filter(|(k, _)| *k == f).map(|(_, s)| s.clone())));
+        let seq = match cached {
+            Some(s) => s,
+            None => {
+                let seq = build(chunks);
+                let got: Vec<u64> = seq.iter().collect();
+                if got != model {
+                    let first = got.iter().zip(model.iter()).position(|(a, b)| a != b).unwrap_or(got.len().min(model.len()));
+                    return Err(("build-wrong-ids".into(), format!("built from {} iterates as {} (first difference at position {first}: expected {:?}, got {:?}; {} vs {} ids)", short(&model), short(&got), model.get(first), got.get(first), model.len(), got.len())));
+                }
+                if let Some(f) = fp {
+                    LAST.with(|l| *l.borrow_mut() = Some((f, seq.clone())));
+                }
+                seq
+            }
+        };
         match op {
             Op::Observe => {
                 if seq.len() != n as u64 {
@@ -603,6 +619,63 @@ fn compositions(n: usize) -> Vec<Vec<u64>> {
     out
 }
 
+/// reduced op list for the long width-boundary subjects: every op at every probe position / id
+/// (ids around the holes and one / two offset-widths behind them), no subsets
+fn big_ops(chunks: &[Vec<u64>], model: &[u64], pp: &[usize]) -> Vec<Op> {
+    let n = model.len();
+    let mut ops = vec![Op::Observe];
+    if chunks.len() == 1 {
+        ops.push(Op::Segment);
+        let m = *model.iter().max().unwrap();
+        ops.push(Op::NewHigh { val: m + 1 });
+        ops.push(Op::NewHigh { val: m + 3 });
+        ops.push(Op::NewHigh { val: m });
+    }
+    let absent = 99_999_999u64;
+    ops.push(Op::Slice { o: 0, l: n });
+    ops.push(Op::Delete { ids: vec![absent] });
+    ops.push(Op::Mask { pos: (0..n as u32).collect() });
+    ops.push(Op::Mask { pos: (1..n as u32).collect() });
+    ops.push(Op::Select { idx: vec![] });
+    ops.push(Op::OffsetRanges { allow: None, block: None });
+    ops.push(Op::OffsetRanges { allow: Some(model.to_vec()), block: None });
+    ops.push(Op::SelectRowIds { p: Params::Full });
+    for (k, i) in pp.iter().enumerate() {
+        let id = model[*i];
+        ops.push(Op::Slice { o: *i, l: (n - i).min(5) });
+        ops.push(Op::Slice { o: i.saturating_sub(2), l: (n - i.saturating_sub(2)).min(5) });
+        ops.push(Op::Delete { ids: vec![id] });
+        ops.push(Op::Mask { pos: vec![*i as u32] });
+        ops.push(Op::Select { idx: vec![*i] });
+        ops.push(Op::OffsetRanges { allow: Some(vec![id]), block: None });
+        ops.push(Op::OffsetRanges { allow: None, block: Some(vec![id]) });
+        ops.push(Op::SelectRowIds { p: Params::Indices(vec![*i as u32]) });
+        ops.push(Op::SelectRowIds { p: Params::Range(*i, (*i + 3).min(n)) });
+        ops.push(Op::SelectRowIds { p: Params::Ranges(vec![(*i as u64, (*i as u64 + 2).min(n as u64))]) });
+        if k % 3 == 0 {
+            ops.push(Op::Slice { o: *i, l: n - i });
+            ops.push(Op::SelectRowIds { p: Params::To(*i) });
+            ops.push(Op::SelectRowIds { p: Params::From(*i) });
+            if *i > 0 {
+                for allow in [false, true] {
+                    ops.push(Op::Rechunk { sizes: vec![*i as u64, (n - i) as u64], allow, merged: true });
+                    if chunks.len() > 1 {
+                        ops.push(Op::Rechunk { sizes: vec![*i as u64, (n - i) as u64], allow, merged: false });
+                    }
+                }
+            }
+        }
+        if let Some(j) = pp.get(k + 1) {
+            ops.push(Op::Delete { ids: vec![model[*j], id] });
+            ops.push(Op::Mask { pos: vec![*i as u32, *j as u32] });
+            ops.push(Op::Select { idx: vec![*i, *j] });
+        }
+    }
+    ops.push(Op::Rechunk { sizes: vec![n as u64], allow: false, merged: true });
+    ops.push(Op::Rechunk { sizes: vec![n as u64 + 1], allow: false, merged: true });
+    ops
+}
+
 fn ops_for(chunks: &[Vec<u64>], thorough: bool) -> Vec<Op> {
     let model: Vec<u64> = chunks.iter().flatten().copied().collect();
     let n = model.len();
@@ -611,6 +684,9 @@ fn ops_for(chunks: &[Vec<u64>], thorough: bool) -> Vec<Op> {
     // long (width-boundary) subjects: single probe ids / positions only, every op rebuilds 65k+ ids
     let big = n > 1000;
     let sub_max = if small { 6 } else if big { 1 } else if thorough { 3 } else { 2 };
+    if big {
+        return big_ops(chunks, &model, &pp);
+    }
     let mut ops = vec![Op::Observe];
     if chunks.len() == 1 {
         ops.push(Op::Segment);
